@@ -260,6 +260,25 @@ int main(int argc, char ** argv)
           fail("draw-discipline|" + cls, fmt("generator+operation used %zu deviates (decay alone %zu); stand-alone operation on the plain decay, tape at %zu, ends at %zu and %s", nop, n0, n0,
                                              T.pos, events_bit_identical(E2, Eop) ? "gives the same event" : "gives a different event"),
                c, E0, Eop, T);
+        // the same configuration applied to an operation object that has been configured many times before (never reset): whatever the
+        // earlier configurations were (rectangular, circular, invalid ones that threw half-way), it behaves like the fresh object
+        {
+          static mdl_op reused;
+          bxdecay0::event E5 = E0;
+          std::string exc5;
+          size_t end5 = 0;
+          try {
+            configure(reused, c);
+            T.seek(n0);
+            reused(T, E5);
+            end5 = T.pos;
+          } catch (std::exception & x) {
+            exc5 = x.what();
+          }
+          if (!exc5.empty()) fail("reconfigured-op|exception", "an operation object configured before raises where a fresh one does not: " + exc5, c, E2, E5, T);
+          else if (end5 != nop || !events_bit_identical(E5, E2))
+            fail("reconfigured-op|" + cls, fmt("an operation object that was configured differently before gives another event than a fresh object with the same configuration (ends at %zu vs %zu)", end5, nop), c, E2, E5, T);
+        }
         if (c.rank >= 0 && op2.get_last_target_index() != target)
           fail("last-target-index|" + cls, fmt("get_last_target_index() = %d, the rank-%d particle of the filtered species is #%d", op2.get_last_target_index(), c.rank, target), c, E0, Eop, T);
         // degree-based entry point == radian-based setters with converted values
